@@ -457,6 +457,60 @@ let run_cli id (lines : string list) =
     List.iter (fun (Sec (f, ordered, ls)) ->
       emit id "sec" (string_of_str f ^ " " ^ (if ordered then "1" else "0") ^ " " ^ join "," (fun l -> hex (string_of_str l)) ls)) secs
 
+
+(* ---------- web service (C16 / C17) ---------- *)
+let strategy_of_string = function
+  | "Ground" -> SGround | "Complete" -> SComplete | "Stable" -> SStable | "StableCountingA" -> SStableCountingA
+  | "StableCountingB" -> SStableCountingB | "StableNogood" -> SStableNogood | x -> failwith ("strategy " ^ x)
+let string_of_strategy = function
+  | SGround -> "Ground" | SComplete -> "Complete" | SStable -> "Stable" | SStableCountingA -> "StableCountingA"
+  | SStableCountingB -> "StableCountingB" | SStableNogood -> "StableNogood"
+let string_of_task = function TParse -> "Parse" | TSolve s -> "Solve:" ^ string_of_strategy s
+let opt3_string (o : n list list opt3) = match o with
+  | ONone -> "None" | OError -> "Error" | OSome l -> "Some:" ^ String.concat "," (List.map interp_string l)
+let pinfo_string (i : n list list pinfo) =
+  let strategies = [SGround; SComplete; SStable; SStableCountingA; SStableCountingB; SStableNogood] in
+  let res st = match List.find_opt (fun (x, _) -> x = st) i.i_res with Some (_, r) -> r | None -> ONone in
+  "problem " ^ hex (string_of_str i.i_name) ^ " " ^ (match i.i_parsing with PNaive -> "Naive" | PHybrid -> "Hybrid")
+  ^ " code=" ^ hex (string_of_str i.i_code) ^ " parse=" ^ opt3_string i.i_parse ^ " "
+  ^ String.concat " " (List.map (fun st -> string_of_strategy st ^ "=" ^ opt3_string (res st)) strategies)
+  ^ " running=" ^ String.concat "," (List.sort compare (List.map string_of_task i.i_running))
+let run_server id (lines : string list) =
+  let st = ref s0 in
+  let k = ref 0 in
+  let hs w = str_of_string (unhex (String.sub w 1 (String.length w - 1))) in
+  List.iter (fun line ->
+    match words line with
+    | "c" :: c :: rest ->
+      let cn = nat_of_int (int_of_string c) in
+      let req = (match rest with
+        | ["register"; u; p] -> RRegister (hs u, hs p)
+        | ["login"; u; p] -> RLogin (hs u, hs p)
+        | ["logout"] -> RLogout | ["info"] -> RInfo
+        | ["update"; u; p] -> RUpdate (hs u, hs p)
+        | ["delacc"] -> RDelAcc
+        | ["add"; nm; code; pg; fresh] -> RAdd (hs nm, hs code, (if pg = "Naive" then PNaive else PHybrid), hs fresh)
+        | ["solve"; nm; stg] -> RSolve (hs nm, strategy_of_string stg)
+        | ["get"; nm] -> RGet (hs nm) | ["list"] -> RList
+        | ["delete"; nm] -> RDelete (hs nm)
+        | _ -> failwith ("bad request " ^ line)) in
+      let (s', (code, pl)) = handle_cur !st cn req in
+      st := s';
+      let ps = (match pl with
+        | PNone -> ""
+        | PUser (nm, temp) -> " user " ^ hex (string_of_str nm) ^ " " ^ (if temp then "1" else "0")
+        | PProblem i -> " " ^ pinfo_string i
+        | PProblems l -> " problems " ^ String.concat " | " (List.sort compare (List.map pinfo_string l))) in
+      emit id ("q" ^ string_of_int !k) (sn code ^ ps); incr k
+    | ["done"; i; t] -> st := complete_cur !st (nat_of_int (int_of_string i)) (t = "1")
+    | ["dump"] ->
+      let us = List.sort compare (List.map (fun u -> hex (string_of_str u.u_name) ^ ":" ^ (match u.u_pw with None -> "temp" | Some _ -> "perm")) !st.users) in
+      let ps = List.sort compare (List.map (fun p -> hex (string_of_str p.p_owner) ^ "/" ^ hex (string_of_str p.p_name) ^ ":" ^
+                 (match p.p_adf with ONone -> "None" | OError -> "Error" | OSome _ -> "Some") ^ ":" ^ hex (string_of_str p.p_code)) !st.probs) in
+      emit id ("q" ^ string_of_int !k) ("dump users=" ^ String.concat "," us ^ " probs=" ^ String.concat "," ps); incr k
+    | [] -> ()
+    | _ -> failwith ("bad server line " ^ line)) lines
+
 (* ---------- main loop ---------- *)
 let () =
   let ic = if Array.length Sys.argv > 1 then open_in Sys.argv.(1) else stdin in
@@ -480,6 +534,7 @@ let () =
               | "LEAF" -> run_leaf id lines
               | "STREAM" -> run_stream id lines
               | "CLI" -> run_cli id lines
+              | "SERVER" -> run_server id lines
               | _ -> failwith ("unknown case kind " ^ kind))
            with Stack_overflow -> emit id "STACKOVERFLOW" ""
               | e -> emit id "EXN" (Printexc.to_string e));
